@@ -21,6 +21,65 @@ type gen struct {
 	ws    []*chainkit.UWallet
 	led   *chainkit.Ledger
 	nonce []uint64
+
+	contracts []common.Address // deployed counter contracts
+	deploying []common.Hash    // creation transactions not yet resolved to an address
+	calls     int
+}
+
+// counterInit is the init code of a contract whose runtime is
+//
+//	PUSH1 0 SLOAD PUSH1 1 ADD PUSH1 0 SSTORE STOP
+//
+// i.e. every call increments storage slot 0 (a storage write that depends on the previous value).
+var counterInit = []byte{
+	0x60, 0x0a, 0x60, 0x0c, 0x60, 0x00, 0x39, 0x60, 0x0a, 0x60, 0x00, 0xf3, // CODECOPY(0, 12, 10); RETURN(0, 10)
+	0x60, 0x00, 0x54, 0x60, 0x01, 0x01, 0x60, 0x00, 0x55, 0x00,
+}
+
+func (ge *gen) deploy(n *chainkit.Node) (string, error) {
+	from := ge.r.Intn(len(ge.g.Accounts))
+	tx, err := chainkit.NewContractCreation(ge.g.Accounts[from], ge.nonce[from], big.NewInt(0), 500000, counterInit)
+	if err != nil {
+		return "", err
+	}
+	if err := n.Mempool.AddTx("", tx); err != nil {
+		return "", fmt.Errorf("AddTx create: %v", err)
+	}
+	ge.nonce[from]++
+	ge.deploying = append(ge.deploying, tx.Hash())
+	return fmt.Sprintf("create counter contract a%d", from), nil
+}
+
+func (ge *gen) call(n *chainkit.Node) (string, error) {
+	if len(ge.contracts) == 0 {
+		return "", nil
+	}
+	from := ge.r.Intn(len(ge.g.Accounts))
+	to := ge.contracts[ge.r.Intn(len(ge.contracts))]
+	tx, err := chainkit.NewCall(ge.g.Accounts[from], ge.nonce[from], to, big.NewInt(0), 200000, nil)
+	if err != nil {
+		return "", err
+	}
+	if err := n.Mempool.AddTx("", tx); err != nil {
+		return "", fmt.Errorf("AddTx call: %v", err)
+	}
+	ge.nonce[from]++
+	ge.calls++
+	return fmt.Sprintf("call counter contract a%d", from), nil
+}
+
+// resolve learns the addresses of the contracts created by the block just committed on n.
+func (ge *gen) resolve(n *chainkit.Node) {
+	var left []common.Hash
+	for _, h := range ge.deploying {
+		if rc, _, _, _ := n.BlockStore.GetTransactionReceipt(h); rc != nil && rc.ContractAddress != (common.Address{}) {
+			ge.contracts = append(ge.contracts, rc.ContractAddress)
+		} else {
+			left = append(left, h)
+		}
+	}
+	ge.deploying = left
 }
 
 func newGen(g *chainkit.Genesis, r *rng.R, seed uint64) *gen {
